@@ -13,11 +13,22 @@ from ..rtc import contracts_cube_count, drive_cube_count, runner
 
 LEVEL = "exploration"
 PROP = "C02"
-RULE = ("every cube of the scope = every list of 0-3 (thorough: 4) row-aligned indexes built with speclib.mk over the enumerated dense "
-        "columns (N <= 4 rows, categories {0,1,2}, 1-, 2- and 3-axis dimensions with C, D <= 2) x every common value per dimension "
-        "(most frequent, rare, absent) x inferred and explicit padded shape x extent-boundary cases (257,2), (2,129), (256,2), (2,128); "
-        "each cube evaluated once per report format; a case is non-trivial when it has at least one dimension and one row; distinct by "
-        "construction (enumeration without repetition)")
+SCOPE = ("every cube of the scope = every list of 0-3 (thorough: also 4) row-aligned indexes built with speclib.mk: 1 dim N <= 4 over categories "
+         "{0,1,2} x commons {0,1,2,3}; 2 dims N <= 4 over {0,1,2}^2 x commons {0,1,2}^2; 3 dims N <= 4 over {0,1}^3, N <= 2 over {0,1,2}^3 and "
+         "N = 3 with one axis over {0,1,2}, commons {0,1,2} per dimension (most frequent, rare, absent from the data); dimensions with two and "
+         "three axes (N <= 2, C, D <= 2, up to three dimensions) giving scaffold axes; inferred shape for every case and an explicit padded "
+         "shape (+1/+2 per axis) for N <= 3 (N <= 2 for 3 dims over {0,1,2}); extent-boundary cases (257,2), (2,129), (256,2), (2,128) padded, "
+         "with the top category present, and with it as the common value; 0 dims: ccube([]).count(N=n), n <= 4. Thorough adds N = 5 (1-2 dims), "
+         "3 dims N = 3 over {0,1,2}, 4 dims N <= 3 exhaustive, 4 dims N = 4, 5 sampled with the seed, extents 256/257/65536/65537 on each axis "
+         "of a 4-dim cube, and the explicit shapes left out above")
+RULES = {
+    "C02": SCOPE + "; each cube is counted once per report format (NaN, (0, False), plain 0; the last with N passed explicitly): distinct inputs are "
+                   "(cube, format) pairs, enumerated without repetition; non-trivial = at least one dimension and at least one row",
+    "C14": SCOPE + "; per cube with one-axis dimensions: interactions(), walk((f, g)) and (up to 2 dims) walk(f) - on the inferred-shape twin only, "
+                   "the walk does not read the cube shape - plus the walks calculate makes on the 1-D sub-cubes during one default-format count "
+                   "(all families; 3 plain dims up to 2 rows): distinct inputs are (cube, call form) pairs, enumerated without repetition; "
+                   "non-trivial = at least one row",
+}
 
 EXPECT = {
     "C02": ["get_initial_regions/ensures-corner-cell-equals-row-count", "get_initial_regions/ensures-every-other-cell-zero",
@@ -57,7 +68,7 @@ def run(ctx, prop=PROP):
         # every call the driver provokes is inside the preconditions on a tree where the links hold; a call outside
         # (e.g. a region that is not what walk + fill must leave) is visible here and in the failing clause upstream
         ctx.notes.append("calls outside a precondition: %r" % outside)
-    runner.report(ctx, mon, totals, lambda ob: contracts_cube_count.property_of(ob) == prop, RULE,
+    runner.report(ctx, mon, totals, lambda ob: contracts_cube_count.property_of(ob) == prop, RULES[prop],
                   expect_clauses=EXPECT[prop], exhaustive=not thorough,
                   extra_cov={"cases_by_family": fams, "cases": int(totals["jobs"]), "parts": PARTS[prop],
                              "sampled_families": ["4d-sampled"] if thorough else []})
